@@ -111,7 +111,8 @@ func nameVariants(n string) []string {
 	return out
 }
 
-var urlAlpha = []string{"j", "a", "v", "J", "d", "t", ":", " ", "\x00", "\n", "\x01", "\x7f", "\xc2\xa0", "&#106;", "&#x6a", "&#74", "&#0;", "&#x0a;", "&", "#", "data", "java", "vbscript", "view-source"}
+var urlAlpha = []string{"j", "a", "v", "J", "d", "t", ":", " ", "\x00", "\n", "\x01", "\x7f", "\xc2\xa0", "&#106;", "&#x6a", "&#74", "&#0;", "&#x0a;", "&", "#", "data", "java", "vbscript", "view-source",
+	"&#362;", "&#x16a;", "&#x14a;", "b", "s"} // references >= 256 whose low byte is a letter of a scheme (lower / upper case)
 
 func init() {
 	var cuts []string
